@@ -1503,10 +1503,6 @@ impl ChannelObject {
         ChannelObject::new_with_data(vm, self.data.clone()).into()
     }
 
-    fn header_ptr(&mut self) -> *mut ObjectHeader {
-        self as *mut Self as *mut ObjectHeader
-    }
-
     fn nbytes(&self) -> usize {
         // TODO: the actual data in the channel should be accounted for. However, it shouldn't be counted for every Vm that shares it...
         size_of::<Self>() // + self.data.capacity() * size_of::<Value>()
@@ -2298,8 +2294,12 @@ impl VmGreenThread {
                 let chan = self.pop(); // TODO: use registers
                 let chan = unsafe { chan.get_channel_mut(self) };
 
-                // TODO: write_barrier not necessary
-                self.write_barrier(chan.header_ptr(), val);
+                // The queue can be shared with another channel object of this thread (a copy made
+                // by deep_copy) that the collector has already scanned, so the colour of `chan`
+                // says nothing: while marking, always shade what goes into a queue.
+                if self.gc_state == GcState::Marking {
+                    Self::mark(&val, &mut self.gray_stack, self.gc_visited);
+                }
                 chan.write_value(val);
             }
             Instr::ConstructStruct(n) => self.construct_struct(n as usize),
